@@ -22,8 +22,13 @@ type CaseReport struct {
 	ImplFuncs  []FuncSummary `json:"implFuncs,omitempty"`
 	ModelFuncs []FuncSummary `json:"modelFuncs,omitempty"`
 	Output     string        `json:"output,omitempty"`
+	BackHalfError string     `json:"backHalfError,omitempty"`
+	SetupSrc   string        `json:"-"`
 	Facts      *Facts        `json:"-"`
 }
+
+// keepOutputs leaves the generated files in place (for the batched compile judge).
+var keepOutputs bool
 
 // defaultOut mirrors the documented default output path.
 func defaultOut(in string) string {
@@ -44,6 +49,9 @@ func compareFront(cli string, drv *Driver, dir, setup string) CaseReport {
 		return rep
 	}
 	rep.Facts = facts
+	if b, err := os.ReadFile(abs); err == nil {
+		rep.SetupSrc = string(b)
+	}
 	if len(facts.Notes) > 0 {
 		rep.Skipped = strings.Join(facts.Notes, ",")
 		return rep
@@ -59,7 +67,9 @@ func compareFront(cli string, drv *Driver, dir, setup string) CaseReport {
 	if rerr == nil {
 		rep.Output = string(outBytes)
 	}
-	_ = os.Remove(out)
+	if !keepOutputs {
+		_ = os.Remove(out)
+	}
 
 	diff := func(cat, format string, a ...any) {
 		rep.Diffs = append(rep.Diffs, fmt.Sprintf(format, a...))
@@ -85,6 +95,8 @@ func compareFront(cli string, drv *Driver, dir, setup string) CaseReport {
 			// the model's function text is not parseable Go: the CLI must fail in imports.Process
 			if rep.CLI.Class != "error" {
 				diff("exit", "model output does not parse (%v) but CLI class %s", merr, rep.CLI.Class)
+			} else if len(implErr) >= len(model.Stderr) {
+				rep.BackHalfError = backHalfClass(implErr[len(model.Stderr):])
 			}
 			break
 		}
@@ -98,6 +110,7 @@ func compareFront(cli string, drv *Driver, dir, setup string) CaseReport {
 				diff("stderr", "CLI failed after the front half and stderr differs:\n  model: %q\n  impl:  %q", model.Stderr, implErr)
 			}
 			rep.Skipped = "back-half-error"
+			rep.BackHalfError = backHalfClass(implErr[len(model.Stderr):])
 			break
 		}
 		if !equalLines(model.Stderr, implErr) {
@@ -149,6 +162,30 @@ func compareFront(cli string, drv *Driver, dir, setup string) CaseReport {
 	}
 	rep.Agree = len(rep.Diffs) == 0
 	return rep
+}
+
+// backHalfClass normalises the diagnostics of goimports/gofmt on the assembled text.
+func backHalfClass(lines []string) string {
+	for _, l := range lines {
+		if i := strings.Index(l, ".go:"); i >= 0 {
+			rest := l[i+4:]
+			parts := strings.SplitN(rest, ": ", 2)
+			if len(parts) == 2 {
+				msg := parts[1]
+				words := strings.Fields(msg)
+				for k, w := range words {
+					if strings.ContainsAny(w, "0123456789'\"") {
+						words[k] = "_"
+					}
+				}
+				return strings.Join(words, " ")
+			}
+		}
+	}
+	if len(lines) > 0 {
+		return errorKind(lines[0])
+	}
+	return "unknown"
 }
 
 func equalLines(a, b []string) bool {
